@@ -11,8 +11,8 @@ import progs
 from vlib import Inconclusive
 
 META = {
-    'technique': 'TLA+ session monitor (ProgMon.tla over Dataflow.tla, loss clauses NeverBlocksUnderMachineLoss / CompletesWhenLossesStop / ScanCompletesWhenLossesStop / ScanRowsAsFailureFreeRun) judges histories recorded from real Bigmachine(testsystem) sessions in which an RPC interposer on the test system\'s shared HTTP client kills the machine serving a chosen call (Worker.Compile/Run/Stat/Read, FuncLocations, Supervisor boot calls, keepalives) before it, after it, after it with the reply dropped, or in the middle of a streamed reply',
-    'level_text': 'recorded behaviour judged by a TLA+ specification: programs of the fault suite (map-only, reduce, cogroup, fold, multi-stage shuffles, reused results) are first run failure-free under a counting RPC interposer, which yields the RPC boundaries of every step (run, scan, run-with-result, rescan); kill histories then kill the serving machine at sampled (quick) or all (thorough, small programs) boundaries x phases {before, after, reply dropped, mid-stream}, singly and in pairs, including during the final scan; every run and scan must finish before its deadline, succeed (kills are finite and replacement machines start), and deliver rows the Dataflow semantics allows for a failure-free run',
+    'technique': 'TLA+ session monitor (ProgMon.tla over Dataflow.tla, loss clauses NeverBlocksUnderMachineLoss / CompletesWhenLossesStop / ScanCompletesWhenLossesStop / ScanRowsAsFailureFreeRun) judges histories recorded from real Bigmachine(testsystem) sessions in which an RPC interposer on the test system\'s shared HTTP client kills the machine serving a chosen call (Worker.Compile/Run/Stat/Read, FuncLocations, Supervisor boot calls, keepalives) before it, after it, after it with the reply dropped, or in the middle of a streamed reply; design models ScanResume.tla (resume of a scan in a recomputed output) and Combine.tla (attempts of a combining task) checked exhaustively',
+    'level_text': 'recorded behaviour judged by a TLA+ specification: programs of the fault suite (map-only, reduce, cogroup, fold, multi-stage shuffles, reused results) are first run failure-free under a counting RPC interposer, which yields the RPC boundaries of every step (run, scan, run-with-result, rescan); kill histories then kill the serving machine at sampled (quick) or all (thorough, small programs) boundaries x phases {before, after, reply dropped, mid-stream}, singly and in pairs, including during the final scan; torn-stream families (small batches, the reply cut after a swept number of bytes) for scans and for the shuffle reads of running aggregation tasks, and repeated-loss histories (six rounds of losing an output and one recomputation attempt); every run and scan must finish before its deadline, succeed (kills are finite and replacement machines start), and deliver rows the Dataflow semantics allows for a failure-free run',
     'level_note': 'machines are in-process testsystem machines killed by closing their servers; the killed machine is the one serving the chosen call (the caller of a worker-to-worker read cannot be singled out); machine-combiner sessions are excluded as the property states; ordinals are counted per method from the start of a step, so timing-dependent calls (keepalive, Stat polling) hit approximately the chosen point',
 }
 
@@ -139,6 +139,13 @@ def run(tier, replay=None):
             raise Inconclusive('ScanResume design check failed: %s' % (r1.violated or r1.error))
         r2 = vlib.tlc(w.root + '/tlc/scanresume2', 'ScanResume', 'ScanResume_order.cfg', workers=2, timeout=300)
         chk.cov['design_counterexample_for_known_finding'] = bool(r2.violated)
+        # design level (Combine.tla): a failed attempt of a combining task that discards its buffers counts every
+        # row once; the _asis configuration documents the repaired defect FX-C02-combiner-partial-attempt
+        r3 = vlib.tlc(w.root + '/tlc/combine', 'Combine', 'Combine_fixed.cfg', workers=2, timeout=300)
+        vlib.tlc_must_parse(r3, 'Combine_fixed')
+        chk.add_tlc('exhaustive Combine_fixed.cfg', r3)
+        if r3.violated or not r3.ok:
+            raise Inconclusive('Combine design check failed: %s' % (r3.violated or r3.error))
         if replay:
             scs = [json.load(open(os.path.join(replay, 'replay.json')))['payload']['scenario']]
             scs[0]['id'] = 1
